@@ -171,6 +171,24 @@ func buildShared(name string, r *rand.Rand, nv, nr int) *shared {
 	}
 	for tries := 0; len(s.rstr) < nr && tries < nr*30; tries++ {
 		x := gen.RangeOne(name, r)
+		switch tries % 4 {
+		case 2:
+			// the bound is one of the shared versions (or a less precise prefix of it) under an operator spelling taken
+			// from the ecosystem's own source literals, so that operators this table does not list are exercised too
+			x = gen.SymRange(name, r, func() string { return boundFrom(s.vstr, r) })
+		case 3:
+			if len(s.vstr) > 0 && len(CmpTable[name].ops) > 0 {
+				var ops []string
+				for o := range CmpTable[name].ops {
+					ops = append(ops, o)
+				}
+				sortStrings(ops)
+				x = ops[r.IntN(len(ops))] + boundFrom(s.vstr, r)
+				if CmpTable[name].listOnly {
+					x += ","
+				}
+			}
+		}
 		if rg, err, pn := e.SafeNewRange(x); accepted(isNilRng(rg), err, pn) {
 			s.rstr = append(s.rstr, x)
 		}
@@ -193,6 +211,20 @@ func buildShared(name string, r *rand.Rand, nv, nr int) *shared {
 	}
 	sort.Strings(s.vtexts)
 	return s
+}
+
+// boundFrom returns one of the strings, half of the time cut at its last '.' or '-' (a less precise bound).
+func boundFrom(vs []string, r *rand.Rand) string {
+	if len(vs) == 0 {
+		return "1.0"
+	}
+	v := vs[r.IntN(len(vs))]
+	if r.IntN(2) == 0 {
+		if i := strings.LastIndexAny(v, ".-"); i > 0 {
+			return v[:i]
+		}
+	}
+	return v
 }
 
 // materialise parses fresh objects from the strings (a fresh ecosystem value too).
@@ -603,6 +635,16 @@ func runC19(c *core.Ctx, ck *Check) {
 	w := c.NewW()
 	defer w.Merge()
 
+	// (0) state that builds up (volume.go): objects parsed before 560k (thorough 2.2M) further distinct versions were
+	// parsed must still be the same objects, give the same answers and equal a fresh parse of their own text
+	all := eco.All()
+	c.Parallel(len(all), func(pw *core.W, i int) {
+		for _, v := range volumeRun(c, pw, all[i], nil, nil, nil, "c19", c.Scale(560000, 2200000)) {
+			if !strings.Contains(v.Rule, "transitivity") { // the order laws are C01's subject
+				pw.Report(v)
+			}
+		}
+	})
 	// (1) purity fingerprints + repeated-call determinism, sequential, in this process
 	for _, name := range eco.Names() {
 		r := c.Rand("purity", name)
@@ -806,6 +848,16 @@ func evalC19(c *core.Ctx, e *eco.Eco, op string, args []string) []core.Violation
 	}
 	if e == nil {
 		return nil
+	}
+	if op == "volume" && len(args) >= 2 {
+		v, _ := strconv.Atoi(args[1])
+		var out []core.Violation
+		for _, x := range volumeRun(c, c.NewW(), e, nil, nil, nil, args[0], v) {
+			if !strings.Contains(x.Rule, "transitivity") {
+				out = append(out, x)
+			}
+		}
+		return out
 	}
 	var out []core.Violation
 	r := core.Rand(c.Seed, "C19", "purity", e.Name)
